@@ -909,6 +909,12 @@ class Tr:
                       tr.call_defined(nd, m, name, info, args, kwargs))
         if name in BUILTINS:
             return Fn(BUILTINS[name])
+        # a private module-level helper (an expression that a clean-up gave a name): evaluated symbolically at the call site, so the
+        # caller's translation is the same term as before the extraction; anything but straight-line code fails closed in `inline`
+        if name.startswith("_"):
+            for mm in [self.mod] + self.mod.imports:
+                if name in mm.funcs and not mm.funcs[name].args.kwonlyargs and not mm.funcs[name].args.defaults:
+                    return Fn(lambda tr, nd, args, kwargs, mm=mm, fnode=mm.funcs[name]: tr.call_inline(nd, mm, fnode, args, kwargs))
         fail(node, f"unknown name {name}")
 
     def ev_Attribute(self, node, env):
